@@ -416,9 +416,12 @@ impl<'a> Gen<'a> {
                         flags: rand_flags(g, false),
                     },
                     4 => HeaderSpec::Invalid { flags: 0 },
-                    5 => HeaderSpec::Invalid {
-                        flags: rand_flags(g, g.bool()),
-                    },
+                    5 => {
+                        let sampled = g.bool();
+                        HeaderSpec::Invalid {
+                            flags: rand_flags(g, sampled),
+                        }
+                    }
                     _ => HeaderSpec::SameTrace {
                         span: rand_span(g),
                         flags: if g.chance(1, 3) { Some(g.below(2) as u8) } else { None },
@@ -935,13 +938,13 @@ fn push_props<X: Env>(trace: u128, span: u64, form: &IdForm) -> Frame<&'static X
             Frame::push(ctxt, emit::props! { trace_id, span_id })
         }
         IdForm::HexLower => {
-            let trace_id = format!("{:032x}", trace);
-            let span_id = format!("{:016x}", span);
+            let (t, s) = (format!("{:032x}", trace), format!("{:016x}", span));
+            let (trace_id, span_id): (&str, &str) = (&t, &s);
             Frame::push(ctxt, emit::props! { trace_id, span_id })
         }
         IdForm::HexUpper => {
-            let trace_id = format!("{:032X}", trace);
-            let span_id = format!("{:016X}", span);
+            let (t, s) = (format!("{:032X}", trace), format!("{:016X}", span));
+            let (trace_id, span_id): (&str, &str) = (&t, &s);
             Frame::push(ctxt, emit::props! { trace_id, span_id })
         }
         IdForm::Int => {
@@ -1166,7 +1169,7 @@ pub fn run_tree<X: Env>(top: &Node, sampler_table: Vec<bool>) -> TreeRun {
         }
     });
     let inner = &cx.0;
-    TreeRun {
+    let run = TreeRun {
         events: inner.sink.take(),
         log: std::mem::take(&mut *inner.log.lock().unwrap()),
         headers: std::mem::take(&mut *inner.headers.lock().unwrap()),
@@ -1175,7 +1178,8 @@ pub fn run_tree<X: Env>(top: &Node, sampler_table: Vec<bool>) -> TreeRun {
         problems: std::mem::take(&mut *inner.problems.lock().unwrap()),
         panicked,
         main_thread,
-    }
+    };
+    run
 }
 
 // ---------------------------------------------------------------------------
